@@ -208,7 +208,53 @@ def members_left_of_none(out):
     return n
 
 
+def members_reading_other_kinds(out):
+    """members that accept input of a kind their name does not suggest, listed BEFORE a member that also accepts it: an enum
+    whose values are tuples reads sequences, an enum with a None / mapping-free value reads null, a dataclass in tuple layout
+    reads sequences, a Decimal / Fraction / date member reads text, a float member reads ints.  Left-most accepting member wins."""
+    import datetime
+    import decimal
+    import enum
+    import fractions
+    import typing as t
+    import pane
+    n = 0
+
+    class Corner(enum.Enum):
+        UNIT = (1, 1)
+        ORIGIN = (0, 0)
+
+    class Pt(pane.PaneBase, in_format=('tuple', 'struct')):
+        x: int
+        y: int = 0
+    cases = [
+        ('Union[Corner, List[int]]', t.Union[Corner, t.List[int]], [1, 1], Corner.UNIT), ('Union[Corner, List[int]] other', t.Union[Corner, t.List[int]], [1, 2], [1, 2]),
+        ('Union[List[int], Corner]', t.Union[t.List[int], Corner], [1, 1], [1, 1]), ('Union[Corner, Tuple[int, int]] from a tuple', t.Union[Corner, t.Tuple[int, int]], (0, 0), Corner.ORIGIN),
+        ('Optional[Union[Corner, List[int]]]', t.Optional[t.Union[Corner, t.List[int]]], [0, 0], Corner.ORIGIN),
+        ('List[Union[Corner, List[int]]]', t.List[t.Union[Corner, t.List[int]]], [[1, 1], [2, 2]], [Corner.UNIT, [2, 2]]),
+        ('Union[Pt, List[int]]', t.Union[Pt, t.List[int]], [1, 2], Pt(1, 2)), ('Union[List[int], Pt]', t.Union[t.List[int], Pt], [1, 2], [1, 2]),
+        ('Union[Pt, List[int]] too long for Pt', t.Union[Pt, t.List[int]], [1, 2, 3], [1, 2, 3]),
+        ('Union[Decimal, str]', t.Union[decimal.Decimal, str], '1.5', decimal.Decimal('1.5')), ('Union[Decimal, str] other', t.Union[decimal.Decimal, str], 'abc', 'abc'),
+        ('Union[Fraction, str]', t.Union[fractions.Fraction, str], '1/2', fractions.Fraction(1, 2)), ('Union[date, str]', t.Union[datetime.date, str], '2020-01-02', datetime.date(2020, 1, 2)),
+        ('Union[float, int]', t.Union[float, int], 3, 3.0), ('Union[complex, float]', t.Union[complex, float], 2.5, complex(2.5)),
+        ('Union[Dict[str, int], Pt]', t.Union[t.Dict[str, int], Pt], {'x': 1}, {'x': 1}), ('Union[Pt, Dict[str, int]]', t.Union[Pt, t.Dict[str, int]], {'x': 1}, Pt(1)),
+    ]
+    with warnings.catch_warnings():
+        warnings.simplefilter('ignore')
+        for label, ty, v, want in cases:
+            n += 1
+            try:
+                r = pane.from_data(v, ty)
+            except Exception as e:
+                out.violation(f'C11:member-reading-other-kind:{type(e).__name__}', f'{label}: from_data({v!r}) raised {type(e).__name__}: {str(e)[:150]}', {'case': label})
+                continue
+            if repr(r) != repr(want) or type(r) is not type(want):
+                out.violation('C11:member-reading-other-kind', f'{label}: from_data({v!r}) gave {r!r}; the left-most member that accepts the value gives {want!r}', {'case': label, 'value': repr(v)})
+    return n
+
+
 def run(ctx, out):
+    out.evaluations += members_reading_other_kinds(out)
     out.evaluations += members_left_of_none(out)
     import families as _famgp
     out.evaluations += _famgp.generic_parameter_twins(out, PROP)
